@@ -834,6 +834,67 @@ def recv_tok(segs, faults=None, close=True):
     return ",".join(toks) if toks else "-"
 
 
+# ------------------------------------------------------------------- cases for the small public helpers
+# (get_bit / escapeall / hextable / tow2utc; model: lean/Rtcm/Model/Helpers.lean).  Every expectation is
+# computed here, independently of the library.
+
+def _hx_tok(b):
+    return hx(b) or "-"
+
+
+def helper_bit_cases(ctx):
+    rng = ctx.rng
+    cs = []
+    datas = [b"", b"\x80", b"\x01", b"\xd3\x00\x13", bytes(range(256))]
+    datas += [bytes(rng.getrandbits(8) for _ in range(rng.choice([1, 2, 3, 8, 33, 200]))) for _ in range(ctx.n(25, 300))]
+    for d in datas:
+        nb = 8 * len(d)
+        v = int.from_bytes(d, "big")
+        nums = {0, 7, 8, nb - 1, nb, nb + 7, nb + 8} | {rng.randrange(0, nb + 9) for _ in range(ctx.n(6, 30))}
+        for num in sorted(n for n in nums if n >= 0):
+            exp = "gb %d" % ((v >> (nb - 1 - num)) & 1) if num < nb else "foreign:index"
+            cs.append(case("getbit %s %d" % (_hx_tok(d), num), "getbit:%s:bit%d" % ("in" if num < nb else "out", num % 8), ("equals", {"expected": exp}), advisory=True))
+    return cs
+
+
+def _hextable_ref(raw, cols):
+    out = ""
+    per = 2 * cols
+    for off in range(0, len(raw), per):
+        row = raw[off:off + per]
+        h = row.hex() + " " * (4 * cols - 2 * len(row))
+        out += "%03d: " % off + "".join(h[k:k + 4] + " " for k in range(0, 4 * cols, 4)) + " | " + repr(row) + " |\n"
+    return out
+
+
+def helper_text_cases(ctx):
+    rng = ctx.rng
+    cs = []
+    datas = [b"", b"s", b"'", b"\"'\\", b"\r\n\t", bytes(range(256)), b"$GNGSA,A,3,34,23"]
+    datas += [bytes(rng.choice([39, 34, 92, 10, 13, 9, 0, 127, 128, 255, 32, 65, rng.randrange(256)]) for _ in range(rng.choice([1, 2, 7, 15, 16, 17, 31, 32, 33, 100, 1100])))
+              for _ in range(ctx.n(40, 500))]
+    for d in datas:
+        exp = "b'" + "".join("\\x" + d.hex()[k:k + 2] for k in range(0, 2 * len(d), 2)) + "'"
+        cs.append(case("escall " + _hx_tok(d), "escall:len%d" % min(len(d), 4), ("equals", {"expected": "es " + hx(exp.encode("latin-1"))}), advisory=True))
+        for cols in {8, 1, rng.choice([1, 2, 3, 4, 5, 8, 16, 600])}:
+            kl = "hextbl:%s:%s" % ("empty" if not d else ("partial-row" if len(d) % (2 * cols) else "full-rows"), "many" if len(d) > 2 * cols else "one")
+            cs.append(case("hextbl %s %d" % (_hx_tok(d), cols), kl, ("equals", {"expected": "ht " + (hx(_hextable_ref(d, cols).encode("latin-1")) or "-")}), advisory=True))
+    return cs
+
+
+def helper_tow_cases(ctx):
+    rng = ctx.rng
+    cs = []
+    tows = [0, 1, 999, 1000, 17999, 18000, 18001, 86399999, 86400000, 86417999, 86418000, 604799999, 604800000, 604818000, -1, -18000, -86400000]
+    tows += [rng.randrange(0, 604800000) for _ in range(ctx.n(60, 600))]
+    tows += [rng.randrange(-10 ** 9, 10 ** 10) for _ in range(ctx.n(30, 300))]
+    for t in tows:
+        tod = (t - 18000) % 86400000
+        exp = "tod %d %d %d %d" % (tod // 3600000, tod // 60000 % 60, tod // 1000 % 60, tod % 1000 * 1000)
+        cs.append(case("tow %d" % t, "tow:%s:%s" % ("neg" if t < 0 else ("week" if t < 604800000 else "beyond"), "ms" if t % 1000 else "s"), ("equals", {"expected": exp}), advisory=True))
+    return cs
+
+
 # =================================================================== per-property cases
 
 def cases_C08(ctx):
@@ -948,6 +1009,7 @@ def cases_C03(ctx):
                                            ("attrs_expected", {"expected": exp2, "ident": e["key"]}), ex))
                     except gens.BuildError:
                         pass
+    cs += helper_bit_cases(ctx)
     return cs
 
 
@@ -1262,6 +1324,7 @@ def cases_C07(ctx):
                 q[rng.randrange(3, len(q))] = rng.choice([39, 34, 92, 10, 13, 9, 0, 255])
         lab = rng.choice([1, 2])
         cs.append(case("mrepr %d %s" % (lab, hx(bytes(q))), "mrepr", ("mrepr", {"payload": hx(bytes(q))})))
+    cs += helper_text_cases(ctx)
     return cs
 
 
@@ -1528,6 +1591,7 @@ def cases_C18(ctx):
     for p in others:
         cs.append(case("helpers 1 " + hx(p), "other:%s" % ("msmblock" if 1070 <= (p[0] << 4 | p[1] >> 4) <= 1229 else "non"),
                        ("helpers", {"ltok": "1", "payload": hx(p), "msm_impl": False})))
+    cs += helper_tow_cases(ctx)
     return cs
 
 
